@@ -184,7 +184,11 @@ void COSyncProdActivate(CO_SYNC *sync)
 
     time = (sync->Cycle / 100);
     if (time > 0) {
-        ticks = COTmrGetTicks(&node->Tmr, time, CO_TMR_UNIT_100US);
+        /* the time exceeds the 16bit range of the conversion function:
+         * convert seconds and the remaining multiple of 100us
+         */
+        ticks  = COTmrGetTicks(&node->Tmr, (uint16_t)(time / 10000u), 1u);
+        ticks += COTmrGetTicks(&node->Tmr, (uint16_t)(time % 10000u), CO_TMR_UNIT_100US);
         sync->Tmr = COTmrCreate(&node->Tmr,
             ticks,
             ticks,
